@@ -23,6 +23,24 @@ pub mod stream {
             Self: 'w;
         fn as_locked_write(&mut self) -> Self::Write<'_>;
     }
+
+    // the same two blanket impls the real module has
+    impl<T: IsTerminal + ?Sized> IsTerminal for &mut T {
+        fn is_terminal(&self) -> bool {
+            (**self).is_terminal()
+        }
+    }
+
+    impl<T: AsLockedWrite + ?Sized> AsLockedWrite for &mut T {
+        type Write<'w>
+            = T::Write<'w>
+        where
+            Self: 'w;
+
+        fn as_locked_write(&mut self) -> Self::Write<'_> {
+            (**self).as_locked_write()
+        }
+    }
 }
 
 #[path = "/repo/crates/anstream/src/fmt.rs"]
